@@ -984,6 +984,26 @@ def check(prog, rep):
         elif u == "unknown":
             rep.undecided(f"{f.qual.split(':')[1]}: reads the raw per-node degree cache ({what}); what is done with the value is not readable")
     rep.ob("R04.4", "package", True, f"{n_raw} read(s) of the raw per-node degree cache outside Expression.degree classified", detail="raw-read-inventory", trivial=True)
+    # duck-type markers: the analysers tell "container of plain variables" from "container of expressions" by
+    # hasattr(x, "_variables") / hasattr(x, "_expressions"); a class that carries BOTH attributes is read as a plain
+    # variable container although its elements are expressions of any degree
+    markers = set()
+    for q in ANALYSERS:
+        for c_ in ast.walk(prog.func(q).node):
+            if isinstance(c_, ast.Call) and dotted(c_.func) == "hasattr" and len(c_.args) == 2 and isinstance(c_.args[1], ast.Constant):
+                markers.add(c_.args[1].value)
+    if {"_variables", "_expressions"} <= markers:
+        for ci in prog.classes.values():
+            attrs = set(ci.slots or ())
+            for m_ in ci.methods.values():
+                for n_ in ast.walk(m_.node):
+                    if isinstance(n_, ast.Attribute) and isinstance(n_.ctx, ast.Store) and dotted(n_.value) in ("self", "instance"):
+                        attrs.add(n_.attr)
+            both = {"_variables", "_expressions"} <= attrs
+            if "_expressions" in attrs or "_variables" in attrs:
+                rep.ob("R04.3", f"{ci.name}", not both, f"{ci.name} carries exactly one of the markers _variables / _expressions" if not both else
+                       f"{ci.name} has both a `_variables` and an `_expressions` attribute: the degree analysers ask hasattr(.., '_variables') first and then treat it as a container of plain variables (degree 1), whatever its element expressions are",
+                       loc=ci.loc, detail="duck-type-marker", robust=True)
     P = prog.cls("Problem")
     lin = P.methods.get("_is_linear_problem")
     if lin is None:
